@@ -20,7 +20,8 @@ def val(tok):
             and tok[0].startswith('$'):
         kind, n = tok[0], tok[1]
         if kind == '$T':
-            return 'T' * n
+            # non-ASCII on purpose: character count != UTF-8 byte count
+            return '\xe9' + 'T' * (n - 1)
         if kind == '$B':
             return b'B' * n
         if kind == '$P':
